@@ -94,7 +94,7 @@ def gen(rng, suite, n_creds=None, kinds=None, heavy=False, shared_issuer=None, e
             used[ci].add(i)
         if "vdec" in kinds and heavy and rng.random() < 0.5:
             i = rng.randrange(1, n)
-            preds.append({"k": "vdec", "id": f"d{ci}", "ref": f"s{ci}", "claim": i, "gen": "std"})
+            preds.append({"k": "vdec", "id": f"d{ci}", "ref": f"s{ci}", "claim": i, "gen": rng.choice(["std", "hash"])})
             used[ci].add(i)
     for ci, c in enumerate(creds):
         n = len(c["claims"])
